@@ -163,6 +163,11 @@ def corpus():
          ("ad", [("p4", A("r"))], []), ("ad", [("p5", A("r"))], []),
          ("rule", A("s"), [P(A("h", "a")), P(A("r"))]),
          ("query", A("h", "X")), ("query", A("r")), ("query", A("s"))])
+    add("failed-proof-then-nonground-loop",
+        [("ad", [("p1", A("f"))], []), ("ad", [("p2", A("h"))], []), ("ad", [("p3", A("g"))], []),
+         ("rule", A("r", "a"), [P(A("f")), N(A("f"))]), ("rule", A("r", "b"), [P(A("g"))]),
+         ("rule", A("r", "a"), [P(A("r", "Z")), P(A("h"))]),
+         ("query", A("r", "a")), ("query", A("r", "X"))])
     add("deterministic-true-queries-under-evidence",
         [("fact", A("dom", "a")), ("fact", A("dom", "b")), ("fact", A("t")),
          ("ad", [("p1", A("a"))], []), ("ad", [("p2", A("b"))], []),
